@@ -264,6 +264,48 @@ def evaluate(m):
         shutil.rmtree(tmp, ignore_errors=True)
 
 
+def static_only(m):
+    tmp = tempfile.mkdtemp(prefix="sa-mut-")
+    try:
+        root = os.path.join(tmp, "repo")
+        shutil.copytree(os.path.join(REPO, "fibertree"), os.path.join(root, "fibertree"),
+                        ignore=shutil.ignore_patterns("__pycache__", "*.pyc"))
+        p = os.path.join(root, "fibertree", m["file"])
+        new, desc, line = apply(open(p).read(), m["idx"], m["kind"])
+        open(p, "w").write(new)
+        env = dict(os.environ, VERIF_REPO=root)
+        det, errs = {}, []
+        for prop in ALL_PROPS:
+            rr = subprocess.run(["/venv/bin/python", "-m", "sa.variant_runner", prop],
+                                cwd=VERIF, env=env, stdout=subprocess.PIPE,
+                                stderr=subprocess.STDOUT, text=True)
+            try:
+                j = json.loads(rr.stdout.strip().splitlines()[-1])
+            except Exception:
+                errs.append(prop)
+                continue
+            if j["new_findings"]:
+                det[prop] = sorted({f["rule"] for f in j["new_findings"]})
+            if j.get("error"):
+                errs.append(prop)
+        return dict(m, detected_by=det, analysis_errors=errs)
+    finally:
+        shutil.rmtree(tmp, ignore_errors=True)
+
+
+def recheck(only_silent=True, jobs=10):
+    """Re-run the static checks (current rules) on the demo-killed mutants."""
+    path = os.path.join(OUT, "results.json")
+    rs = json.load(open(path))
+    todo = [r for r in rs if r["demos_failed"] and
+            (r.get("pinned_suite_passes") or not only_silent)]
+    with cf.ThreadPoolExecutor(max_workers=jobs) as ex:
+        new = {r["id"]: r for r in ex.map(static_only, todo)}
+    rs = [new.get(r["id"], r) for r in rs]
+    json.dump(rs, open(path, "w"), indent=1)
+    show()
+
+
 def run(first, last, jobs):
     ms = json.load(open(os.path.join(OUT, "mutants.json")))["mutants"][first:last]
     path = os.path.join(OUT, "results.json")
@@ -313,5 +355,7 @@ if __name__ == "__main__":
         a = [x for x in sys.argv[2:] if not x.startswith("--")]
         jobs = 10
         run(int(a[0]) if a else 0, int(a[1]) if len(a) > 1 else 10 ** 9, jobs)
+    elif cmd == "recheck":
+        recheck(only_silent="--all" not in sys.argv)
     else:
         show()
